@@ -15,6 +15,13 @@ theorem stdFrameIndex_key_out (f n : Nat) (ai : Bool) (hf : n ≤ f) : stdFrameI
   apply HdVerif.C05.frame_number_rejected
   unfold frameKey; cases ai <;> simp <;> omega
 
+/-- the first statement of both methods on the frame key: the standardised index, or IndexError beyond the image -/
+theorem skel_index_key (sk : Skel) (hsk : sk = singleSkel ∨ sk = batchSkel) (f n : Nat) (ai : Bool) :
+    sk.index (n : Int) (frameKey f ai) ai = stdFrameIndex (frameKey f ai) ai (n : Int) := by
+  rcases hsk with rfl | rfl
+  · unfold Skel.index; simp only [singleSkel, singleStdArgs, bind, Except.bind]
+  · unfold Skel.index; simp only [batchSkel, batchStdArgs, bind, Except.bind]
+
 /-- both methods hand the frame number through unchanged: the bytes they fetch are those of the standardised index -/
 theorem frameBytes_of_index (sk : Skel) (hsk : sk = singleSkel ∨ sk = batchSkel) (rawFn : Int → Except ErrKind (List Nat))
     (n k : Int) (ai : Bool) :
@@ -78,6 +85,8 @@ theorem storedUncached_build (sk : Skel) (hsk : sk = singleSkel ∨ sk = batchSk
     exact this
   unfold storedUncached
   have hel' : (o.element != "PixelData") = false := by simp [hel]
+  rw [hn, skel_index_key sk hsk, hkey]
+  simp only []
   rw [hel']
   simp only [Bool.false_eq_true, ↓reduceIte, hr, hc, hi, hn, hpd]
   cases how with
@@ -113,10 +122,7 @@ theorem storedUncached_out (sk : Skel) (hsk : sk = singleSkel ∨ sk = batchSkel
     storedUncached sk how o (frameKey f ai) ai = .error .index := by
   obtain ⟨_, _, _, _, _, _, _, _, _, _, _, _, _, _, _, hn, _, _, _⟩ := build_ok x o h
   unfold storedUncached
-  have hel' : (o.element != "PixelData") = false := by simp [hel]
-  rw [hel']
-  simp only [Bool.false_eq_true, ↓reduceIte, hn]
-  cases how <;> simp only [] <;> rw [frameBytes_of_index sk hsk, stdFrameIndex_key_out f (x.n * x.m) ai hf] <;> rfl
+  rw [hn, skel_index_key sk hsk, stdFrameIndex_key_out f (x.n * x.m) ai hf]
 
 /-- **cached**: the subscripted `pixel_array` is the plane as well -- for EVERY element (also float maps) -/
 theorem storedCached_build (sk : Skel) (hsk : sk = singleSkel ∨ sk = batchSkel) (x : PMInput) (o : PMObject)
@@ -226,8 +232,12 @@ theorem float_reads_depend_on_history (x : PMInput) (o : PMObject) (h : build x 
       [.cells (.error .attribute), .failed .attribute, .cells (.error .attribute)] ∧
     ∀ cached, (step how o cached (.real f ai sel)).2 = .reals (.error .attribute) := by
   have hel' : (o.element != "PixelData") = true := by simpa using hel
-  have hun : ∀ sk how, storedUncached sk how o (frameKey f ai) ai = .error .attribute := by
-    intro sk how; unfold storedUncached; rw [hel']; rfl
+  obtain ⟨_, _, _, _, _, _, _, _, _, _, _, _, _, _, _, hn, _, _, _⟩ := build_ok x o h
+  have hun : ∀ how, storedUncached singleSkel how o (frameKey f ai) ai = .error .attribute := by
+    intro how; unfold storedUncached
+    rw [hn, skel_index_key singleSkel (Or.inl rfl), stdFrameIndex_key f (x.n * x.m) ai hf]
+    simp only []
+    rw [hel']; rfl
   refine ⟨?_, ?_, ?_⟩
   · simp only [run, step, storedIn, Bool.false_eq_true, ↓reduceIte, hun]
     rw [storedCached_build singleSkel (Or.inl rfl) x o h f ai hf]
@@ -383,7 +393,8 @@ theorem native_frame_through_decode (c : CodecImpl) (conv : List Int → List In
     · exact ⟨.u16, by rw [h2]; rfl, by rw [h2]; rfl⟩
   rw [hdt]
   simp only [bind, Except.bind, hdsz]
-  rw [if_neg (by rw [hshape]; decide), if_neg (by rw [hfl, Nat.mul_one]; omega), if_neg (by rw [hfl, Nat.mul_one]; omega)]
+  rw [if_neg (by omega : ¬ ((1 : Nat) ≠ 1 ∧ (1 : Nat) ≠ 3)), if_neg (by rw [hshape]; decide), if_neg (by rw [hfl, Nat.mul_one]; omega),
+    if_neg (by rw [hfl, Nat.mul_one]; omega)]
   have hnp : ¬ (1 > 1 ∧ (none : Option Int) = some 1) := by simp
   rw [if_neg hnp]
   have hcc : convertsColour "MONOCHROME2" 1 = false := by decide
